@@ -81,6 +81,76 @@ def _is_variable_index(ctx, fn: FuncInfo, name: str) -> bool:
     return False
 
 
+def check_bounds_eval(ctx) -> None:
+    """constraint_matrices evaluated as a whole on a stand-in problem (3 variables, one of them fixed; constraints over
+    every pattern of missing / negative / zero / positive / large bounds) and compared field by field with the
+    matrices written down independently here."""
+    from ..interp import ExtFunc, Interp
+    from .. import ndmodel
+    from ..ndmodel import NA
+
+    prog = ctx.prog
+    fn = prog.func("cobra.util.array", "constraint_matrices")
+
+    class _S:
+        pass
+
+    class _Obj(_S):
+        def __init__(self, **kw):
+            self.__dict__.update(kw)
+
+    class _Con(_S):
+        def __init__(self, lb, ub, co):
+            self.lb, self.ub, self.co = lb, ub, co
+
+        def get_linear_coefficients(self, variables):
+            return {v: self.co.get(v.name, 0.0) for v in variables}
+
+    inf_ = float("inf")
+    tol = 1e-6
+    pairs = [(lb, ub) for lb in (None, -2.0, 0.0, 2.0) for ub in (None, -2.0, 0.0, 2.0) if lb is None or ub is None or lb <= ub]
+    pairs += [(1e6, 1e6 + 5.0), (-1e6 - 3.0, -1e6), (1e6, 1e6), (3e-7, 3e-7)]
+    variables = [_Obj(name="x0", lb=-1.0, ub=1.0), _Obj(name="x1", lb=2.0, ub=2.0), _Obj(name="x2", lb=0.0, ub=1000.0)]
+    cons = [_Con(lb, ub, {"x0": float(i + 1), "x2": -0.5 * (i + 1)}) for i, (lb, ub) in enumerate(pairs)]
+    model = _Obj(variables=variables, constraints=cons)
+    want = {"equalities": [], "b": [], "inequalities": [], "bounds": [], "variable_fixed": [False, True, False], "variable_bounds": [[-1.0, 1.0], [2.0, 2.0], [0.0, 1000.0]]}
+    for i, (lb, ub) in enumerate(pairs):
+        wl, wu = (-inf_ if lb is None else lb), (inf_ if ub is None else ub)
+        row = [float(i + 1), 0.0, -0.5 * (i + 1)]
+        if wu - wl < tol:
+            want["equalities"].append(row)
+            want["b"].append(wl if abs(wl) > tol else 0.0)
+        else:
+            want["inequalities"].append(row)
+            want["bounds"].append([wl, wu])
+    stubs = {k: (lambda f_: (lambda it_, ev, c, a, kw: f_(*a, **kw)))(f) for k, f in ndmodel.NUMPY.items()}
+    stubs["typing.NamedTuple"] = lambda it_, ev, c, a, kw: ExtFunc(lambda *aa, **k: _Obj(**k) if not aa else _Obj(**dict(zip(FIELDS, aa), **k)), "Problem")
+    FIELDS = ["equalities", "b", "inequalities", "bounds", "variable_fixed", "variable_bounds"]
+    it = Interp(prog, (_S, NA), [], stubs, globals_={})
+    try:
+        got = it.call(fn, [model], {"array_type": "dense", "zero_tol": tol})
+    except EvalRaise as exc:
+        ctx.bad("C16.bounds", fn, fn.node, f"constraint_matrices raises {exc.exc_type} on a problem with {len(cons)} constraints over every bound pattern")
+        return
+    except Unknown as exc:
+        raise AnalysisError(f"C16.bounds: constraint_matrices cannot be evaluated: {exc}")
+    except ndmodel.Unsupported as exc:
+        raise AnalysisError(f"C16.bounds: constraint_matrices uses an array operation outside the array model: {exc}")
+    problems = []
+    for f in FIELDS:
+        v = getattr(got, f, None) if isinstance(got, _Obj) else (got[FIELDS.index(f)] if isinstance(got, tuple) and len(got) == len(FIELDS) else None)
+        lst = v.tolist() if isinstance(v, NA) else v
+        if isinstance(lst, list) and not want[f] and lst in ([], [[]]):
+            continue
+        if lst != want[f]:
+            k = next((i for i, (g, w) in enumerate(zip(lst, want[f])) if g != w), None) if isinstance(lst, list) and len(lst) == len(want[f]) else None
+            problems.append(f"field `{f}` is {lst!r:.160}, expected {want[f]!r:.160}" if k is None else f"field `{f}`, row {k}: {lst[k]!r}, expected {want[f][k]!r}")
+    if problems:
+        ctx.bad("C16.bounds", fn, fn.node, f"the matrices built for the sampler differ from the problem: {problems[0]}" + (f" (+{len(problems) - 1} more field(s))" if len(problems) > 1 else "") + ": the sampler then ignores (or invents) a bound")
+    else:
+        ctx.ok("C16.bounds", fn, "matrices", f"{len(cons)} constraints over every bound pattern, 3 variables: equalities/b, inequalities/bounds, fixed flags and variable bounds as written down independently (evaluated as a whole)")
+
+
 def check_bounds(ctx) -> None:
     prog = ctx.prog
     fn = prog.func("cobra.util.array", "constraint_matrices")
@@ -197,6 +267,101 @@ def check_random(ctx) -> None:
     fa.check_seed(ctx, "C16.random")
 
 
+def check_count_eval(ctx) -> None:
+    """OptGPSampler.sample evaluated for process counts 1..4 and requests 1, 4, 5, 7 (pool stand-in, chain function
+    replaced by a recorder that hands back distinguishable rows): the chains are (ceil(n / processes), index) for every
+    index 0..processes-1 exactly once, the frame holds every drawn row once, and the sample counter and the running
+    centre are advanced by the rows actually drawn."""
+    from ..interp import Interp
+    from .. import ndmodel
+    from ..ndmodel import NA
+    import math
+
+    prog = ctx.prog
+    fn = prog.func("cobra.sampling.optgp", "OptGPSampler.sample")
+
+    class _S:
+        pass
+
+    class _Obj(_S):
+        def __init__(self, **kw):
+            self.__dict__.update(kw)
+
+    problems = []
+    cases = 0
+    for procs in (1, 2, 3, 4):
+        for n in (1, 4, 5, 7):
+            for fluxes in (False, True):
+                cases += 1
+                calls = []
+                frames = []
+
+                def chain(it_, ev, c, a, kw):
+                    n_i, idx = a[0]
+                    if not isinstance(n_i, int) or isinstance(n_i, bool) or n_i < 0:
+                        raise EvalRaise("TypeError", c)
+                    calls.append((n_i, idx))
+                    return (idx + 1, NA([[100.0 * (idx + 1) + k, 1.0 + idx] for k in range(n_i)]) if n_i else ndmodel._empty((0, 2)))
+
+                def frame(it_, ev, c, a, kw):
+                    frames.append((a[0] if a else kw.get("data"), kw.get("columns")))
+                    return frames[-1]
+
+                model = _Obj(reactions=[_Obj(id="R0")], variables=[_Obj(name="x0"), _Obj(name="x1")])
+                sampler = _Obj(processes=procs, n_samples=3, center=NA([1.0, 2.0]), retries=5, fwd_idx=[0], rev_idx=[1], model=model)
+                stubs = {k: (lambda f_: (lambda it_, ev, c, a, kw: f_(*a, **kw)))(f) for k, f in ndmodel.NUMPY.items()}
+                stubs["cobra.sampling.optgp._sample_chain"] = chain
+                stubs["cobra.sampling.optgp.mp_init"] = lambda it_, ev, c, a, kw: None
+                stubs["pandas.DataFrame"] = frame
+                it = Interp(prog, (_S, NA, ndmodel.NScalar), [], stubs, globals_={"int": int, "float": float})
+                label = f"processes={procs}, n={n}, fluxes={fluxes}"
+                try:
+                    got = it.call(fn, [n], {"fluxes": fluxes}, selfobj=sampler)
+                except EvalRaise as exc:
+                    problems.append(f"{label}: sample() raises {exc.exc_type}")
+                    continue
+                except Unknown as exc:
+                    raise AnalysisError(f"C16.count: OptGPSampler.sample cannot be evaluated: {exc}")
+                except ndmodel.Unsupported as exc:
+                    raise AnalysisError(f"C16.count: OptGPSampler.sample uses an array operation outside the array model: {exc}")
+                per = math.ceil(n / procs)
+                want_calls = sorted((per, i) for i in range(procs))
+                if sorted(calls) != want_calls:
+                    problems.append(f"{label}: chains started with (length, index) {sorted(calls)}, expected {want_calls}: every process draws ceil(n / processes) samples under its own index (the index makes the seeds differ)")
+                    continue
+                drawn = sorted([100.0 * (i + 1) + k, 1.0 + i] for _, i in calls for k in range(per))
+                total = len(drawn)
+                if not frames or got is not frames[-1]:
+                    problems.append(f"{label}: the result is not the frame built from the chains")
+                    continue
+                data, cols = got
+                rows = data.tolist() if isinstance(data, NA) else None
+                if fluxes:
+                    want_rows = sorted([r[0] - r[1]] for r in drawn)
+                    want_cols = ["R0"]
+                else:
+                    want_rows, want_cols = drawn, ["x0", "x1"]
+                if rows is None or sorted(rows) != want_rows or list(cols or []) != want_cols:
+                    problems.append(f"{label}: the frame has {len(rows) if rows is not None else '?'} row(s) for {total} drawn sample(s), or other values/columns than the chains returned")
+                    continue
+                if sampler.n_samples != 3 + total:
+                    problems.append(f"{label}: the sample counter advanced by {sampler.n_samples - 3} for {total} drawn sample(s): the running centre is weighted wrongly from then on")
+                    continue
+                centre = sampler.center.tolist() if isinstance(sampler.center, NA) else sampler.center
+                want_centre = [(3 * c0 + sum(r[j] for r in drawn)) / (3 + total) for j, c0 in enumerate((1.0, 2.0))]
+                flat = centre[0] if isinstance(centre, list) and centre and isinstance(centre[0], list) else centre
+                if not (isinstance(flat, list) and len(flat) == 2 and all(abs(a - b) < 1e-9 for a, b in zip(flat, want_centre))):
+                    problems.append(f"{label}: the centre after the call is {centre}, the mean over the {3 + total} samples seen is {want_centre}")
+                    continue
+                if procs > 1 and sampler.retries != 5 + sum(i + 1 for _, i in calls):
+                    problems.append(f"{label}: retries of the chains are not added up ({sampler.retries})")
+    if problems:
+        ctx.bad("C16.count", fn, fn.node, f"{len(problems)} of {cases} cases wrong, e.g. {problems[0]}")
+    else:
+        ctx.ok("C16.count", fn, "count bookkeeping", f"{cases} cases (1-4 processes x 4 requests x both spaces): chains (ceil(n/p), i) for every i once; frame, counter and centre account for exactly the drawn rows (evaluated)")
+    return not problems
+
+
 def check_count(ctx) -> None:
     prog = ctx.prog
     fn = prog.func("cobra.sampling.optgp", "OptGPSampler.sample")
@@ -223,6 +388,15 @@ def check_count(ctx) -> None:
         ctx.ok("C16.count", fn, args[0], "one task per process: (samples per process, chain index)")
     else:
         ctx.bad("C16.count", fn, args[0] if args else b, "the chains are not given (samples per process, chain index) for every process")
+
+
+def check_count_both(ctx) -> None:
+    """The evaluated clause decides; the reading of the parallel branch explains when it fails."""
+    n0 = len(ctx.findings)
+    d0 = len(ctx.deferred)
+    ctx.guard(check_count_eval, ctx)
+    failed = len(ctx.findings) > n0 or len(ctx.deferred) > d0
+    ctx.explain(failed, check_count, ctx)
 
 
 def check_warmup(ctx) -> None:
@@ -410,9 +584,12 @@ def run(ctx) -> None:
     if raw:
         ctx.bad("C16.private", init, enclosing_stmt(raw[0].node), "HRSampler.__init__ modifies the model it was given")
     check_map(ctx)
-    check_bounds(ctx)
+    # the matrices are decided by evaluating constraint_matrices as a whole; the reading of its loop body explains
+    n0, d0 = len(ctx.findings), len(ctx.deferred)
+    ctx.guard(check_bounds_eval, ctx)
+    ctx.explain(len(ctx.findings) > n0 or len(ctx.deferred) > d0, check_bounds, ctx)
     check_random(ctx)
     ctx.guard(check_argument_names, ctx)
     ctx.guard(check_matrix_handling, ctx)
-    check_count(ctx)
+    check_count_both(ctx)
     check_warmup(ctx)
